@@ -86,6 +86,8 @@ def instances(tier):
             if 'invert' not in op:
                 add(4, 1, 'MA', [op]); add(5, 1, 'MA', [op])
         add(3, 2, 'MA', ['invert', 'imul_M', 'invert'], query_timeout_ms=120000)
+    for op in ('add_M', 'sub_M', 'mul_M', 'div_M', 'dot', 'matmul'):
+        out.append(dict(name='broadcast-left[r2,%s]' % op, fn='broadcast_left', args=dict(rank=2, op=op)))
     out.append(dict(name='space-rules', fn='space_rules', args={}))
     for rank in (1, 2, 3):
         out.append(dict(name='keyed[r%d]' % rank, fn='keyed_access', args=dict(rank=rank)))
@@ -259,6 +261,24 @@ def ma_sequence(E, rank, length, left, seq):
             E.claim_true(tag + ':right-untouched-after-result-mutation', same_elements(Y.data, ysnap, E.sym) and same_elements(Y1.data, y1snap, E.sym))
     if seq and left == 'MA' and 'invert' not in seq[-1]:
         E.claim('canary-final', E.eq(X.data[0, 0, 0], MX[0][0][0] + 1.0), canary=True)
+
+
+def broadcast_left(E, rank, op):
+    """a length-1 MatrixArray (e.g. a density) as LEFT operand of an out-of-place operation with a length-L array: the per-matrix result of length L"""
+    L = 2
+    D = MatrixArray(length=1, rank=rank, data=E.arr('d', (1, rank, rank), default=1.7), space=Space.NonSpatial)
+    H = MatrixArray(length=L, rank=rank, data=E.arr('h', (L, rank, rank), default=0.4), space=Space.Fourier)
+    MD, MH = tolist(D.data), tolist(H.data)
+    E.reachable('broadcast-left')
+    if op in ('dot', 'matmul'):
+        res = D.dot(H) if op == 'dot' else (D @ H)
+        want = [mm(MD[0], MH[l]) for l in range(L)]
+    else:
+        b = op.split('_')[0]
+        res = PYOP[b](D, H)
+        want = [[[PYOP[b](MD[0][i][j], MH[l][i][j]) for j in range(rank)] for i in range(rank)] for l in range(L)]
+    compare(E, op + ':result', res.data, want)
+    E.claim_true(op + ':operands-untouched', tolist(D.data) is not None and all(D.data[0, i, j] is MD[0][i][j] or D.data[0, i, j] == MD[0][i][j] for i in range(rank) for j in range(rank)))
 
 
 def space_rules(E):
